@@ -4,7 +4,7 @@ from __future__ import annotations
 
 import ast
 
-from sa.cfg import all_paths_pass, dominators, reachable, reaches, specialize
+from sa.cfg import all_paths_pass, both, dominators, reachable, reaches, specialize, test_atoms
 from sa.db import AnalysisError, FuncInfo, ancestors, bind_args, dotted, src, walk_local
 from sa.model import contains, enclosing
 from sa.variants import Variant, chain, replace_once, sub_first, sub_once
@@ -24,6 +24,7 @@ EXPLANATION = (
     "the MRO; (R6) strict type validation visits every value of every data edge, rejects a missing annotation on either side and asks "
     "is_type_compatible(output type, input type) in that argument order; (R7) the shared-output check compares every unordered pair of producers "
     "(the 'ordered' relation is not transitive). (R8) gate-kind exhaustiveness: wherever a concrete gate class is tested with isinstance, the classes tested for that variable cover every concrete gate kind or the variable is then used through an attribute only the tested class declares — a validator narrowed from GateNode to one kind silently skips the others. (R9) the Union rule of strict type checking calls get_args on a type only on paths where that type is known to be a Union (a parameterised generic is never split into its type arguments), and the generic rule answers 'compatible' after taking both sides' type arguments only for an unparameterised side or by the pairwise comparison. (R10) no validator narrows a check to data outputs (emit names are outputs too)."
+    " R6 also requires that no (edge, value) pair is skipped (each iteration of the loop chain edges > values > producers reaches the next loop, the innermost one the compatibility question or a rejection, evaluated for a value-carrying data edge), that only data edges are typed (no rejection reachable for an ordering or control edge, or such edges name no value), and that the producer side ranges over every node producing the value name whenever data edges are drawn from the first producer of a shared name only."
 )
 NOT_DECIDED = "The type-compatibility relation itself (a function over type objects) and the correctness of each individual validator's predicate; position independence is argued from the wiring, not tested."
 
@@ -379,6 +380,63 @@ def run(ctx) -> None:
     loops = [n for n in walk_local(vt.node) if isinstance(n, ast.For)]
     ok = len(loops) >= 2 and "nx_graph.edges(data=True)" in src(loops[0].iter) and "value_names" in src(loops[1].iter)
     rep.add("C19.R6", f"{vt.qname}:all-edges-all-values", ok, vt.loc(), "iterates every edge and every value name on it" if ok else "type validation does not iterate every value of every data edge")
+    # ... and no (edge, value) pair is skipped: every iteration of the per-value loop reaches the compatibility
+    # question (or a rejection), every iteration of the per-edge loop that carries values reaches the per-value loop
+    from .common import must_reach_in_iteration
+
+    vcfg6 = ctx.cfg(vt)
+    fors = sorted((n for n in vcfg6.nodes if n.kind == "for"), key=lambda n: n.lineno)
+    askers = [n for n in vcfg6.nodes if any((dotted(c.func) or "").split(".")[-1] == "is_type_compatible" for c in vcfg6.calls_at(n))]
+    chain = [l for l in fors if any(contains(l.ast, a_.ast) for a_ in askers if a_.ast is not None)]
+    if len(fors) >= 2:
+        # chain: edges > values > (further loops, e.g. the producers of a shared name) > the compatibility question
+        inner_ok = bool(askers) and bool(chain) and must_reach_in_iteration(vcfg6, chain[-1], askers + [n for n in vcfg6.nodes if n.kind == "stmt" and isinstance(n.ast, ast.Raise)], {})
+        vn = src(fors[1].ast.iter)
+        val6 = {vn: True, f"not {vn}": False, **_edge_kind_valuation(vcfg6, fors[0], "data")}
+        outer_ok = all(must_reach_in_iteration(vcfg6, chain[i], [chain[i + 1]], val6) for i in range(len(chain) - 1))
+        rep.add("C19.R6", f"{vt.qname}:no-pair-skipped", inner_ok and outer_ok, vt.loc(), "every value of every value-carrying edge reaches the compatibility question" if inner_ok and outer_ok else ("an iteration of the innermost checking loop can end without asking is_type_compatible or rejecting: some (producer, consumer, value) pairs are accepted unchecked (e.g. only the first consumer of a fanned-out value is checked)" if not inner_ok else "an iteration of an enclosing loop (a value-carrying data edge, or one of its values) can end before the compatibility question is reached: that edge/value is accepted unchecked"))
+    # ... for every producer of the value: producers sharing an output name (exclusive gate branches, ordered
+    # producers) get ONE data edge, drawn from the first of them (Graph._build_graph reduces the producer lists
+    # to their first element) — so the type check must range over all producers of the name, not the edge's source
+    bg = db.cls("graph.core.Graph").methods["_build_graph"]
+    first_only = any(isinstance(x, ast.DictComp) and isinstance(x.value, ast.Subscript) and isinstance(x.value.slice, ast.Constant) and x.value.slice.value == 0 for x in walk_local(bg.node))
+    recv = [c.func.value for c in db.calls_in(vt) if isinstance(c.func, ast.Attribute) and c.func.attr == "get_output_type"]
+    all_prod = False
+    for r6 in recv:
+        if not isinstance(r6, ast.Name):
+            continue
+        for l in chain:
+            if isinstance(l.ast.target, ast.Name) and l.ast.target.id == r6.id:
+                exprs6 = [l.ast.iter] + [getattr(d, "value", None) for nm in {x.id for x in ast.walk(l.ast.iter) if isinstance(x, ast.Name)} for d in db.local_defs(vt).get(nm, [])]
+                txt = " ".join(src(e) for e in exprs6 if e is not None)
+                scans_nodes = any(isinstance(x, ast.Call) and src(x.func).endswith("nodes.values") for e in exprs6 if e is not None for x in ast.walk(e))
+                by_output = any(isinstance(x, ast.Compare) and len(x.ops) == 1 and isinstance(x.ops[0], ast.In) and src(x.comparators[0]).endswith(".outputs") for e in exprs6 if e is not None for x in ast.walk(e))
+                if scans_nodes and by_output:
+                    all_prod = True
+    okp = all_prod or not first_only
+    rep.add("C19.R6", f"{vt.qname}:every-producer-of-the-name", okp, vt.loc(), "the producer side ranges over every node producing the value name" if okp else "data edges are drawn from the first producer of a shared output name only, and the strict type check looks at the edge's source only: the type of a second exclusive/ordered producer is never compared with its consumers (ifelse -> a: result:int / b: result:str -> consumer(result:int) is accepted)")
+    # ... and only data edges are typed: an ordering (emit/wait_for) or control edge carries no typed value, so a valid
+    # graph that uses them must not be rejected for a "missing annotation" of a signal — either the type check skips
+    # non-data edges, or no such edge names a value
+    from sa.cfg import eval_test as _evt
+
+    named_non_data = []
+    for f in db.funcs_in("graph.core"):
+        for c in db.calls_in(f):
+            if isinstance(c.func, ast.Attribute) and c.func.attr == "add_edge":
+                kw = {k.arg: k.value for k in c.keywords}
+                et = kw.get("edge_type")
+                if isinstance(et, ast.Constant) and et.value in ("ordering", "control") and "value_names" in kw and not (isinstance(kw["value_names"], ast.List) and not kw["value_names"].elts):
+                    named_non_data.append((f, c, et.value))
+    if len(fors) >= 2:
+        skips = {}
+        for kind in ("ordering", "control"):
+            val = _edge_kind_valuation(vcfg6, fors[0], kind)
+            starts6 = [t for t, l, _ in fors[0].succ if l == "T"]
+            live6 = reachable(starts6[0], both(specialize(val, vcfg6), lambda a_, b_, l_, i_: a_ is not fors[0])) if starts6 and val else None
+            skips[kind] = live6 is not None and not any(n.kind == "stmt" and isinstance(n.ast, ast.Raise) for n in live6)
+        okd = all(skips.values()) or not named_non_data
+        rep.add("C19.R6", f"{vt.qname}:data-edges-only", okd, vt.loc(), "non-data edges are never type-checked" if okd else f"an {named_non_data[0][2]} edge names its signal ({named_non_data[0][0].name}:{named_non_data[0][1].lineno}) and the strict type check walks it like a data edge: a valid graph using emit/wait_for is rejected in strict mode for a missing annotation of the signal")
     from sa.pattern import find_all, solve
 
     envs = solve(["_OT = _S.get_output_type(_V)", "_IT = _T.get_input_type(_V)", "is_type_compatible(_OT, _IT)"], vt.node)
@@ -397,10 +455,38 @@ def run(ctx) -> None:
                 compat_ok = True
         # producer side is the edge's source node, consumer side its target node
         srcs = solve(["for _A, _B, _D in nx_graph.edges(data=True): ...", "_S = nodes[_A]", "_T = nodes[_B]"], vt.node)
-        if not any(src(e2["_S"]) == src(env["_S"]) and src(e2["_T"]) == src(env["_T"]) for e2 in srcs):
+        def _is_source(sname: str, e2) -> bool:
+            if src(e2["_S"]) == sname:
+                return True
+            # a loop variable ranging over an iterable that contains the edge's source node
+            for l in chain:
+                if isinstance(l.ast.target, ast.Name) and l.ast.target.id == sname:
+                    its = [l.ast.iter] + [getattr(d, "value", None) for nm in {x.id for x in ast.walk(l.ast.iter) if isinstance(x, ast.Name)} for d in db.local_defs(vt).get(nm, [])]
+                    if any(isinstance(x, ast.Name) and x.id == src(e2["_S"]) for e in its if e is not None for x in ast.walk(e)):
+                        return True
+            return False
+
+        if not any(_is_source(src(env["_S"]), e2) and src(e2["_T"]) == src(env["_T"]) for e2 in srcs):
             compat_ok = False
     rep.add("C19.R6", f"{vt.qname}:missing-annotation", miss_ok, vt.loc(), "a missing annotation on either side is rejected" if miss_ok else "a missing annotation on the producer or consumer side is not rejected")
     rep.add("C19.R6", f"{vt.qname}:compatibility-call", compat_ok, vt.loc(), "incompatibility (producer output type vs consumer input type, in that order) raises" if compat_ok else "is_type_compatible is not asked (output type of the edge's source, input type of its target) for the edge's value, or its negative result does not raise")
+
+def _edge_kind_valuation(cfg, loop, kind: str) -> dict[str, bool]:
+    """Truth of the tests on the edge's ``edge_type`` inside ``loop`` for an edge of ``kind``."""
+    val: dict[str, bool] = {}
+    atoms = [a for n in cfg.nodes if n.kind == "test" and n.ast is not None and contains(loop.ast, n.ast) for a in test_atoms(n.ast) if "edge_type" in src(a)]
+    for a in atoms:
+        v = None
+        if isinstance(a, ast.Compare) and len(a.ops) == 1 and isinstance(a.comparators[0], ast.Constant):
+            cst = a.comparators[0].value
+            v = (kind == cst) if isinstance(a.ops[0], ast.Eq) else (kind != cst) if isinstance(a.ops[0], ast.NotEq) else None
+        elif isinstance(a, ast.Compare) and len(a.ops) == 1 and isinstance(a.comparators[0], (ast.Tuple, ast.Set, ast.List)) and all(isinstance(e, ast.Constant) for e in a.comparators[0].elts):
+            members = {e.value for e in a.comparators[0].elts}
+            v = (kind in members) if isinstance(a.ops[0], ast.In) else (kind not in members) if isinstance(a.ops[0], ast.NotIn) else None
+        if v is not None:
+            val[src(a)] = v
+    return val
+
 
 def _ri(f: FuncInfo, r: ast.AST) -> int:
     rs = [n for n in walk_local(f.node) if isinstance(n, ast.Raise)]
@@ -488,8 +574,12 @@ VARIANTS = [
     Variant("control-edges-unguarded", CORE, replace_once("                if target in G.nodes and not G.has_edge(node.name, target):", "                if not G.has_edge(node.name, target):"), {"C19.R3"}),
     Variant("graph-nodes-rebound-in-copy", CORE, replace_once("        new_graph._bound = dict(self._bound)\n        # Clear cached_property", "        new_graph._bound = dict(self._bound)\n        new_graph._nodes = dict(self._nodes)\n        # Clear cached_property"), {"C19.R4"}),
     Variant("invalidate-own-class-only", BASE, replace_once("isinstance(getattr(cls, key, None), functools.cached_property)", "isinstance(vars(cls).get(key), functools.cached_property)"), {"C19.R5"}),
-    Variant("types-skip-missing-input-annotation", VA, sub_once(r"            if input_type is None:\n                raise GraphConfigError\(\n.*?\n                \)\n\n            # Check type compatibility", "            if input_type is None:\n                continue\n\n            # Check type compatibility"), {"C19.R6"}),
+    Variant("types-skip-missing-input-annotation", VA, sub_once(r"                if input_type is None:\n                    raise GraphConfigError\(\n.*?\n                    \)\n\n                # Check type compatibility", "                if input_type is None:\n                    continue\n\n                # Check type compatibility"), {"C19.R6"}),
     Variant("types-args-swapped", VA, replace_once("            if not is_type_compatible(output_type, input_type):", "            if not is_type_compatible(input_type, output_type):"), {"C19.R6"}),
     Variant("conflicts-adjacent-pairs-only", CO, lambda s_: s_.replace("for a, b in combinations(sources, 2):", "for a, b in zip(sources, sources[1:]):"), {"C19.R7"}),
     Variant("twin-validators-reordered", VA, replace_once("    _validate_gate_targets(nodes)\n    _validate_no_gate_self_loop(nodes)\n", "    _validate_no_gate_self_loop(nodes)\n    _validate_gate_targets(nodes)\n"), set()),
+    Variant("types-first-consumer-only", VA, chain(replace_once("    for source_name, target_name, edge_data in nx_graph.edges(data=True):\n        if edge_data.get(\"edge_type\") != \"data\":", "    seen: set[str] = set()\n    for source_name, target_name, edge_data in nx_graph.edges(data=True):\n        if edge_data.get(\"edge_type\") != \"data\":"), replace_once("            producers = [source_node] +", "            if value_name in seen:\n                continue\n            seen.add(value_name)\n            producers = [source_node] +")), {"C19.R6"}),
+    Variant("types-ordering-edges-checked", VA, replace_once("        if edge_data.get(\"edge_type\") != \"data\":\n            continue  # control and ordering (emit/wait_for) edges carry no typed value\n", ""), {"C19.R6"}),
+    Variant("types-edge-source-only", VA, replace_once("            producers = [source_node] + [n for n in nodes.values() if n is not source_node and value_name in n.outputs]\n", "            producers = [source_node]\n"), {"C19.R6"}),
+    Variant("twin-types-skip-by-kind-set", VA, replace_once("        if edge_data.get(\"edge_type\") != \"data\":", "        if edge_data.get(\"edge_type\") in (\"control\", \"ordering\"):"), set()),
 ]
